@@ -286,7 +286,7 @@ def clauses(tier):
         Clause(
             "roundtrip_hz", check_roundtrip_hz,
             "non-trivial = f > 0; distinct by (scale parameters, f)",
-            spec_f, quick=6000, thorough=400000,
+            spec_f, quick=4500, thorough=400000,
         ),
         Clause(
             "roundtrip_scale", check_roundtrip_scale,
@@ -308,13 +308,13 @@ def clauses(tier):
                     }
                 ),
             ),
-            quick=5000, thorough=300000,
+            quick=3800, thorough=300000,
         ),
         Clause(
             "monotone", check_monotone,
             "ordered pair f1 < f2 = f1 + gap (relative gap 1e-9..1e-1); every pair is non-trivial",
             lambda: st.fixed_dictionaries({"scale": _scales(), "f": _freqs(), "gap": log_uniform(-9, -1), "near_octave": near}),
-            quick=5000, thorough=300000,
+            quick=3800, thorough=300000,
         ),
         Clause(
             "continuity", check_continuity,
@@ -326,7 +326,7 @@ def clauses(tier):
                     "eps": log_uniform(-13, -4),
                 }
             ),
-            quick=4000, thorough=200000,
+            quick=3000, thorough=200000,
         ),
         Clause(
             "published", check_published,
